@@ -204,7 +204,7 @@ SHORT = {
 def main():
     rows = []
     os.makedirs(DST, exist_ok=True)
-    for d in sorted(glob.glob(SRC + "/C*/[abcdefghij]")):
+    for d in sorted(glob.glob(SRC + "/C*/[abcdefghijk]")):
         prop, var = d.split("/")[-2:]
         key = f"{prop}-{var}"
         res = os.path.join(d, "RESULT.txt")
